@@ -15,8 +15,9 @@ import (
 
 // step of a fault script
 type step struct {
-	Op string `json:"op"` // ins, flush, snap, stopF, startF, crashF, restartF, restartL, cut, restore, hold, release, settle, quiesce
+	Op string `json:"op"` // ins, flush, flushAll, snap, stopF, startF, crashF, restartF, restartL, cut, restore, hold, release, settle, quiesce
 	N  int    `json:"n,omitempty"`
+	K  string `json:"k,omitempty"` // ins: "skip1" = points that table 1's WHERE rejects, "keep1" = points it accepts
 	F  int    `json:"f,omitempty"` // follower index
 	T  int    `json:"t,omitempty"` // table index
 	L  int    `json:"l,omitempty"` // leader index
@@ -26,6 +27,7 @@ type fcase struct {
 	cfg    *config
 	Script []step
 	Name   string
+	Class  string
 }
 
 // genFaultCase generates a small cluster (1-2 leaders, 2-3 partitions, 1-2 followers each,
@@ -36,10 +38,26 @@ func genFaultCase(r *hk.Rng, maxFaults int) *fcase {
 	cfg.P = hk.Pick(r, []int{2, 2, 3})
 	cfg.NLeaders = hk.Pick(r, []int{1, 1, 2})
 	cfg.PerPart = hk.Pick(r, []int{1, 2})
-	for len(cfg.Tables) == 0 {
-		cfg.Tables = genTables(r, hk.Pick(r, []int{1, 2, 2, 3}))
+	// class "persisted-offset bookkeeping" (every second case): at least two tables on the
+	// stream that skip different subsets of the entries a follower is sent (table 1 gets a WHERE
+	// on a dim and partition keys different from table 0's), and a script built around episodes
+	// of idle flushes (memstore empty, only the `offset` file is rewritten), data flushes and
+	// restarts (clean, from a snapshot, after a down time) at each of these points
+	bookkeeping := r.Chance(1, 2)
+	for len(cfg.Tables) == 0 || (bookkeeping && len(cfg.Tables) < 2) {
+		n := hk.Pick(r, []int{1, 2, 2, 3})
+		if bookkeeping {
+			n = hk.Pick(r, []int{2, 2, 3})
+		}
+		cfg.Tables = genTables(r, n)
 	}
-	fc := &fcase{cfg: cfg}
+	if bookkeeping {
+		makeSkipping(r, cfg.Tables)
+	}
+	fc := &fcase{cfg: cfg, Class: "random"}
+	if bookkeeping {
+		fc.Class = "bookkeeping"
+	}
 	nf := cfg.P * cfg.PerPart
 	nFaults := r.Range(maxFaults/2+1, maxFaults)
 	faults := 0
@@ -52,8 +70,82 @@ func genFaultCase(r *hk.Rng, maxFaults int) *fcase {
 		fc.Script = append(fc.Script, step{Op: "ins", N: n})
 		total += n
 	}
+	insK := func(n int, k string) {
+		fc.Script = append(fc.Script, step{Op: "ins", N: n, K: k})
+		total += n
+	}
+	add := func(st step) { fc.Script = append(fc.Script, st) }
+	clean := func() bool { return len(downF) == 0 && len(cutL) == 0 && len(held) == 0 }
+	// one episode on follower f: everything flushed; entries that table 1 skips arrive and an
+	// idle flush persists the advanced offsets only; stored entries arrive and are flushed to a
+	// filestore (all tables or some); the follower restarts one way or another, with a
+	// snapshot taken at one of these points
+	episode := func(f int) {
+		snapAt := r.Intn(5)
+		maybeSnap := func(k int) {
+			if k == snapAt {
+				add(step{Op: "snap", F: f})
+				snapped[f] = true
+			}
+		}
+		add(step{Op: "quiesce"})
+		add(step{Op: "flushAll", F: f})
+		maybeSnap(0)
+		insK(r.Range(1, 4), "skip1")
+		add(step{Op: "quiesce"})
+		add(step{Op: "flushAll", F: f})
+		maybeSnap(1)
+		insK(r.Range(1, 4), "keep1")
+		add(step{Op: "quiesce"})
+		switch r.Intn(3) {
+		case 0:
+			add(step{Op: "flushAll", F: f})
+		case 1:
+			add(step{Op: "flush", F: f, T: 1})
+		default:
+			add(step{Op: "flush", F: f, T: r.Intn(len(cfg.Tables))})
+		}
+		maybeSnap(2)
+		if r.Chance(1, 2) {
+			insK(r.Range(1, 3), hk.Pick(r, []string{"skip1", "keep1", ""}))
+			add(step{Op: "quiesce"})
+			if r.Chance(1, 2) {
+				add(step{Op: "flushAll", F: f})
+			}
+			maybeSnap(3)
+		}
+		switch r.Intn(4) {
+		case 0:
+			add(step{Op: "restartF", F: f})
+		case 1:
+			if snapped[f] {
+				add(step{Op: "crashF", F: f})
+			} else {
+				add(step{Op: "restartF", F: f})
+			}
+		case 2:
+			add(step{Op: "stopF", F: f})
+			ins(r.Range(1, 4))
+			add(step{Op: "startF", F: f})
+		default:
+			add(step{Op: "snap", F: f})
+			snapped[f] = true
+			ins(r.Range(1, 3))
+			add(step{Op: "settle", N: r.Range(1, 40)})
+			add(step{Op: "crashF", F: f})
+		}
+		faults++
+		ins(r.Range(1, 4))
+	}
 	ins(r.Range(3, 12))
+	if bookkeeping {
+		episode(r.Intn(nf))
+	}
 	for faults < nFaults {
+		if bookkeeping && clean() && r.Chance(1, 5) {
+			episode(r.Intn(nf))
+			continue
+		}
 		switch r.Intn(12) {
 		case 0, 1:
 			ins(r.Range(1, 10))
@@ -126,7 +218,75 @@ func genFaultCase(r *hk.Rng, maxFaults int) *fcase {
 	for range cfg.Points {
 		cfg.LeaderOf = append(cfg.LeaderOf, r.Intn(cfg.NLeaders))
 	}
+	// batches marked skip1 / keep1: make table 1's WHERE fail / pass on their points
+	next := 0
+	for _, st := range fc.Script {
+		if st.Op != "ins" {
+			continue
+		}
+		for k := 0; k < st.N && next < len(cfg.Points); k++ {
+			if st.K != "" && len(cfg.Tables) > 1 {
+				forceWhere(cfg.Tables[1], &cfg.Points[next], st.K == "keep1")
+			}
+			next++
+		}
+	}
 	return fc
+}
+
+// makeSkipping gives table 1 a WHERE on a dim (if it has none) and partition keys different
+// from table 0's, so that the tables of one follower skip different subsets of what it is sent.
+func makeSkipping(r *hk.Rng, ts []*TableDef) {
+	t1 := ts[1]
+	if t1.S.WhereC < 0 {
+		t1.S.WhereC = r.Intn(len(gen.Conds))
+		if q, err := dbk.ParseTable(t1.S); err == nil {
+			t1.where = q.Where
+		}
+	}
+	if keySetID(t1.PartitionBy) == keySetID(ts[0].PartitionBy) && r.Chance(2, 3) {
+		for tries := 0; tries < 8; tries++ {
+			var ks []string
+			src := t1.S.GroupBy
+			if src == nil {
+				src = pointDims
+			}
+			for _, d := range src {
+				if r.Chance(1, 2) {
+					ks = append(ks, d)
+				}
+			}
+			if len(ks) > 0 && keySetID(ks) != keySetID(ts[0].PartitionBy) {
+				t1.PartitionBy = ks
+				break
+			}
+		}
+	}
+}
+
+// forceWhere rewrites the point's dims so that the table's WHERE (one of gen.Conds: d = 'x',
+// d <> 'x', g = '1') passes or fails.
+func forceWhere(t *TableDef, p *dbk.Point, pass bool) {
+	switch t.S.WhereC {
+	case 0:
+		if pass {
+			p.Dims["d"] = "x"
+		} else {
+			p.Dims["d"] = "y"
+		}
+	case 1:
+		if pass {
+			p.Dims["d"] = "y"
+		} else {
+			p.Dims["d"] = "x"
+		}
+	case 2:
+		if pass {
+			p.Dims["g"] = "1"
+		} else {
+			p.Dims["g"] = "2"
+		}
+	}
 }
 
 // runFaults is one C12 case.
@@ -153,9 +313,10 @@ type scripted struct {
 		PartitionBy []string `json:"partitionBy"`
 	} `json:"tables"`
 	Points []struct {
-		Dims map[string]interface{} `json:"dims"`
-		Vals map[string]float64     `json:"vals"`
-		Sec  int                    `json:"sec"`
+		Dims   map[string]interface{} `json:"dims"`
+		Vals   map[string]float64     `json:"vals"`
+		Sec    int                    `json:"sec"`
+		Leader int                    `json:"leader"`
 	} `json:"points"`
 	Script []step `json:"script"`
 }
@@ -200,18 +361,24 @@ func (sc *scripted) build() (*fcase, error) {
 			vals[k] = v
 		}
 		cfg.Points = append(cfg.Points, dbk.Point{TS: dbk.Base.Add(time.Duration(p.Sec) * time.Second), Dims: p.Dims, Vals: vals})
-		cfg.LeaderOf = append(cfg.LeaderOf, 0)
+		cfg.LeaderOf = append(cfg.LeaderOf, p.Leader%sc.Leaders)
 	}
-	return &fcase{cfg: cfg, Script: sc.Script}, nil
+	return &fcase{cfg: cfg, Script: sc.Script, Class: "scenario"}, nil
 }
 
 // schemaFromDef supports the hand-written corpus tables: `SUM(x) AS f0[, ...]` fields, optional
 // GROUP BY dims, period(1s).
 func schemaFromDef(name, text string) (*dbk.Schema, error) {
 	s := &dbk.Schema{Table: name, Stream: stream, WhereC: -1, Res: time.Second, Retention: 4000 * time.Second}
-	var fields, groupBy string
-	if _, err := fmt.Sscanf(text, "%s %s", &fields, &groupBy); err != nil {
-		return nil, fmt.Errorf("corpus table = \"<fields: a,b> <group by: d,g | *>\": %v", err)
+	parts := strings.Fields(text)
+	if len(parts) < 2 {
+		return nil, fmt.Errorf("scenario table = \"<fields: a,b> <group by: d,g | *> [where=<index into gen.Conds>]\"")
+	}
+	fields, groupBy := parts[0], parts[1]
+	if len(parts) > 2 {
+		if _, err := fmt.Sscanf(parts[2], "where=%d", &s.WhereC); err != nil || s.WhereC >= len(gen.Conds) {
+			return nil, fmt.Errorf("scenario table: bad %q", parts[2])
+		}
 	}
 	for i, f := range strings.Split(fields, ",") {
 		s.Fields = append(s.Fields, dbk.FieldDef{Name: fmt.Sprintf("f%d", i),
@@ -277,6 +444,13 @@ func runFaultCase(ctx *hk.RunCtx, fc *fcase, idx uint64, r *hk.Rng) (retry bool,
 			f := c.Followers[st.F]
 			if f.up {
 				f.db.VerifForceFlush(cfg.Tables[st.T].S.Table)
+			}
+		case "flushAll":
+			f := c.Followers[st.F]
+			if f.up {
+				for _, t := range cfg.Tables {
+					f.db.VerifForceFlush(t.S.Table)
+				}
 			}
 		case "snap":
 			if err := c.snapshot(c.Followers[st.F]); err != nil {
@@ -414,6 +588,12 @@ func runFaultCase(ctx *hk.RunCtx, fc *fcase, idx uint64, r *hk.Rng) (retry bool,
 	caseJSON := map[string]interface{}{"engine": "cluster", "mode": "faults", "seed": ctx.Seed, "index": idx, "config": cfg.summary(), "script": fc.Script, "scenario": fc.Name}
 	ctx.Res.Count(caseJSON, effective > 0)
 	ctx.Res.Hit(fmt.Sprintf("effective-faults:%d", min(effective, 6)))
+	ctx.Res.Hit("class:" + fc.Class)
+	for k, n := range w.bookkeeping() {
+		if n > 0 {
+			ctx.Res.Hit("restart:" + k)
+		}
+	}
 	var fails []propFail
 	var ties []string
 	ties = append(ties, w.checkRouting(ctx)...)
@@ -492,4 +672,71 @@ func dumpCase(dir string, idx uint64, caseJSON interface{}, w *world) {
 		}
 		fmt.Fprintf(f, "%s%s\n", b, extra)
 	}
+}
+
+// bookkeeping classifies, per follower table, the state of its two persisted offset records at
+// each (re)start of the follower: which records exist and which one is ahead.  (Evidence that the
+// runs really contain restarts over a stale offset file / a stale filestore header.)
+func (w *world) bookkeeping() map[string]int {
+	out := map[string]int{}
+	type rec struct {
+		off, file      int // sequence numbers of the last offset-only / data persist, 0 = never
+		skipsSinceFile bool
+	}
+	cur := map[string]*rec{}  // live directory
+	snap := map[string]*rec{} // snapshot
+	seq := 0
+	key := func(f int, t string) string { return fmt.Sprintf("%d/%s", f, t) }
+	for _, e := range w.evs {
+		seq++
+		switch e.Name {
+		case "persist":
+			r := cur[key(e.F, e.Table)]
+			if r == nil {
+				r = &rec{}
+				cur[key(e.F, e.Table)] = r
+			}
+			if e.Flag {
+				r.file = seq
+			} else {
+				r.off = seq
+			}
+		case "snapshot":
+			for k, r := range cur {
+				if strings.HasPrefix(k, fmt.Sprintf("%d/", e.F)) {
+					c := *r
+					snap[k] = &c
+				}
+			}
+		case "restoreSnapshot":
+			for k := range cur {
+				if strings.HasPrefix(k, fmt.Sprintf("%d/", e.F)) {
+					delete(cur, k)
+				}
+			}
+			for k, r := range snap {
+				if strings.HasPrefix(k, fmt.Sprintf("%d/", e.F)) {
+					c := *r
+					cur[k] = &c
+				}
+			}
+		case "startFollower":
+			for k, r := range cur {
+				if !strings.HasPrefix(k, fmt.Sprintf("%d/", e.F)) {
+					continue
+				}
+				switch {
+				case r.off > 0 && r.file > r.off:
+					out["offset-file-stale"]++
+				case r.off > 0 && r.file > 0 && r.off > r.file:
+					out["filestore-header-stale"]++
+				case r.off > 0 && r.file == 0:
+					out["offset-file-only"]++
+				case r.file > 0:
+					out["filestore-only"]++
+				}
+			}
+		}
+	}
+	return out
 }
